@@ -1,7 +1,7 @@
-(* Props/C02Reparse.v - property C02 (text level): the re-parse specification rr (Reparse.v, validated per run by correspondence stage 8) composed with the specified builder, the title refresh and the projector: one more pass computed block by block for every tree; block-level and byte-level fixpoint on settled notes; witnesses for two clauses of reparse_safe
+(* Props/C02Reparse.v - property C02 (text level): the re-parse specification rr (Reparse.v, validated per run by correspondence stage 8) composed with the specified builder, the title refresh and the projector: one more pass computed block by block for every tree; block-level fixpoint on settled notes, byte-level fixpoint whenever every line is written the same again; witnesses for two clauses of reparse_safe
    Only statements, each closed by an `exact`, pinned by a `Check`, followed by `Print Assumptions`. *)
 From Coq Require Import ZArith Permutation List.
-From IweV Require Import Str Text Ast RelPath Arena Project SectionsSpec Check_Norm NormFacts SectionsFacts HistoryText Reparse ReparseFacts.
+From IweV Require Import Str Text Ast RelPath Arena Project SectionsSpec Check_Norm NormFacts SectionsFacts HistoryText Reparse ReparseFacts ReparseText.
 Local Open Scope string_scope.
 Local Open Scope list_scope.
 
@@ -69,6 +69,46 @@ Check C02_fixpoint_text :
          tree_to_markdown o tables (key_parent key) t.
 Print Assumptions C02_fixpoint_text.
 
+Theorem C02_fixpoint_text_md :
+  forall (ctx : titles) (o : opts) (key : string) (t : tree) (tables : list string),
+         reparse_safe o (project (key_parent key) t) = true ->
+         forallb (md_settled ctx (key_parent key) o) (project (key_parent key) t) = true ->
+         tree_to_markdown o tables (key_parent key)
+           (tmap (norm_node ctx) (spec_tree key (rr o (project (key_parent key) t)))) =
+         tree_to_markdown o tables (key_parent key) t.
+Proof. exact ReparseText.fixpoint_text_md. Qed.
+Check C02_fixpoint_text_md :
+  forall (ctx : titles) (o : opts) (key : string) (t : tree) (tables : list string),
+         reparse_safe o (project (key_parent key) t) = true ->
+         forallb (md_settled ctx (key_parent key) o) (project (key_parent key) t) = true ->
+         tree_to_markdown o tables (key_parent key)
+           (tmap (norm_node ctx) (spec_tree key (rr o (project (key_parent key) t)))) =
+         tree_to_markdown o tables (key_parent key) t.
+Print Assumptions C02_fixpoint_text_md.
+
+Theorem C02_fixpoint_document_md :
+  forall (ctx : titles) (o : opts) (key : string) (t : tree) (tables : list string)
+           (meta : option string),
+         reparse_safe o (project (key_parent key) t) = true ->
+         forallb (md_settled ctx (key_parent key) o) (project (key_parent key) t) = true ->
+         let
+         '(meta', bs') := rr_doc o meta (project (key_parent key) t) in
+          wrap_metadata meta'
+            (tree_to_markdown o tables (key_parent key) (tmap (norm_node ctx) (spec_tree key bs'))) =
+          wrap_metadata meta (tree_to_markdown o tables (key_parent key) t).
+Proof. exact ReparseText.fixpoint_document_md. Qed.
+Check C02_fixpoint_document_md :
+  forall (ctx : titles) (o : opts) (key : string) (t : tree) (tables : list string)
+           (meta : option string),
+         reparse_safe o (project (key_parent key) t) = true ->
+         forallb (md_settled ctx (key_parent key) o) (project (key_parent key) t) = true ->
+         let
+         '(meta', bs') := rr_doc o meta (project (key_parent key) t) in
+          wrap_metadata meta'
+            (tree_to_markdown o tables (key_parent key) (tmap (norm_node ctx) (spec_tree key bs'))) =
+          wrap_metadata meta (tree_to_markdown o tables (key_parent key) t).
+Print Assumptions C02_fixpoint_document_md.
+
 Theorem C02_settled_fixed :
   forall (ctx : titles) (dir : string) (o : opts) (g : list gblock),
          settled ctx dir o g = true -> map (gagain ctx dir o) g = g.
@@ -112,3 +152,9 @@ Example C02_fixpoint_nonvacuous :
   reparse_safe ex_opts ex_written = true /\ settled ex_ctx (key_parent ex_key) ex_opts ex_written = true /\
   project (key_parent ex_key) (tmap (norm_node ex_ctx) (spec_tree ex_key (rr ex_opts ex_written))) = ex_written.
 Proof. split; [apply ex_in_class | split; [apply ex_in_class | exact ex_fixpoint]]. Qed.
+(* ... and the byte-level hypothesis also by blocks that are NOT settled (text in pieces, a link title) *)
+Example C02_fixpoint_md_nonvacuous :
+  forallb (md_settled ex_ctx (key_parent ex_key) ex_opts) ex_written = true /\
+  forallb (md_settled ex_ctx "" ex_opts) [GPara [Str "a"; Str " "; Str "b"]; GPara [Link "http://x" "t" Regular [Str "y"]]] = true /\
+  settled ex_ctx "" ex_opts [GPara [Str "a"; Str " "; Str "b"]; GPara [Link "http://x" "t" Regular [Str "y"]]] = false.
+Proof. exact ex_md_settled. Qed.
